@@ -9,7 +9,7 @@
    are assumed to be the server's (C25.HashIntegrity derives it from an injective hash).  The client is the
    transcription of the corrected code ([all_fixes]); the code as found is the same function with a flag off. *)
 From Coq Require Import List NArith Bool.
-From RV Require Import Base.KMap C25.Model C25.Spec C25.Proofs C25.HashIntegrity.
+From RV Require Import Base.KMap C25.Model C25.Spec C25.Proofs C25.RewriteProofs C25.HashIntegrity.
 Import ListNotations.
 Local Open Scope N_scope.
 
@@ -61,6 +61,31 @@ Proof. exact followed_deltas_are_consecutive. Qed.
 (* the executable oracle evaluated on the implementation's output holds of the model on every input *)
 Theorem C25_model_satisfies_spec : forall cfg w sts, spec_okb w sts (model_obs cfg sts) = true.
 Proof. exact model_satisfies_spec. Qed.
+
+(* ---- a server that REWRITES its history (re-issues a (session, serial) with other content) ----
+   Whatever copy a run starts from - the copy of a history the server has since rewritten, a copy of another
+   session, any content under any state record - if the notification lists a delta serial remembered in the
+   copy's state with ANOTHER hash (Notification::check_deltas) or names another session, then no delta file is
+   requested, the snapshot is, and a run reported as updated leaves exactly the snapshot the server stands for
+   NOW ([w] is the world of this run only); otherwise the run is not reported as updated and the copy is left
+   as it was.  No premise on the copy. *)
+Theorem C25_rewritten_history_refetched : forall w cfg l st nf,
+  s_notify st = NOk nf -> step_genuine w st = true ->
+  mismatch l nf = true \/ nf_session nf <> l_session l ->
+  let o := run_step all_fixes cfg (Some l) st in
+  o_reqs o = [0; nf_snap_ref nf] /\
+  (o_result o = RES_updated ->
+     exists l', o_local o = Some l' /\ l_session l' = nf_session nf /\ l_serial l' = nf_serial nf /\
+                truth w (nf_session nf) (nf_serial nf) = Some (l_content l')) /\
+  (o_result o <> RES_updated -> o_result o < RES_updated /\ o_local o = Some l).
+Proof. exact rewritten_history_refetched. Qed.
+
+(* sequences of runs with one world per run: the per-run oracle (premise [step_premise], evaluated on the copy the
+   run starts from: the copy is this run's world's content at its serial, or the rewriting is visible, or the
+   session differs) holds of the model for every list of (world, served answers) pairs *)
+Theorem C25_rewritten_model_satisfies_spec : forall cfg wsts,
+  steps_okb2 None wsts (model_obs cfg (map snd wsts)) = true.
+Proof. exact rewritten_model_satisfies_spec. Qed.
 
 (* the premise follows from an injective hash *)
 Theorem C25_injective_hash_gives_genuine : forall (H : doc -> N), (forall a b, H a = H b -> a = b) ->
@@ -176,3 +201,39 @@ Check C25_reachable_copy_is_truth : forall w cfg sts l,
   genuine w sts = true -> local_after all_fixes cfg None sts = Some l ->
   truth w (l_session l) (l_serial l) = Some (l_content l).
 Check C25_model_satisfies_spec : forall cfg w sts, spec_okb w sts (model_obs cfg sts) = true.
+
+(* non-vacuity of the rewritten-history statements: the server replaces version 6 (and its delta) after the client
+   has stored it, keeping the serial; the notification still lists delta 6, now with another hash *)
+Definition w0' : world := [(1, 5, [(0, 0)]); (1, 6, [(0, 0); (2, 0)])].
+Definition stored6 : step :=
+  {| s_notify := NOk {| nf_session := 1; nf_serial := 6; nf_snap_ref := 1; nf_snap_dig := 2;
+                        nf_deltas := [{| di_serial := 6; di_ref := 11; di_dig := 3 |}] |};
+     s_files := [{| f_ref := 1; f_ok := true; f_doc := DSnap 1 6 [(0, 0); (1, 0)] false; f_dig := 2 |};
+                 {| f_ref := 11; f_ok := true; f_doc := DDelta 1 6 [EPub 1 0] false; f_dig := 3 |}] |}.
+Definition rewritten6 : step :=
+  {| s_notify := NOk {| nf_session := 1; nf_serial := 6; nf_snap_ref := 1; nf_snap_dig := 7;
+                        nf_deltas := [{| di_serial := 6; di_ref := 11; di_dig := 8 |}] |};
+     s_files := [{| f_ref := 1; f_ok := true; f_doc := DSnap 1 6 [(0, 0); (2, 0)] false; f_dig := 7 |};
+                 {| f_ref := 11; f_ok := true; f_doc := DDelta 1 6 [EPub 2 0] false; f_dig := 8 |}] |}.
+Example C25_rewritten_nonvacuous :
+  let wsts := [(w0, first_run); (w0, stored6); (w0', rewritten6)] in
+  let os := model_obs cfg0 (map snd wsts) in
+  map (fun o => (o_result o, o_reason o, o_reqs o, option_map l_content (o_local o))) os
+  = [(RES_updated, R_new_repository, [0; 1], Some [(0, 0)]);
+     (RES_updated, R_none, [0; 11], Some [(0, 0); (1, 0)]);
+     (RES_updated, R_delta_mutation, [0; 1], Some [(0, 0); (2, 0)])]
+  /\ step_premise w0' (o_local (nth 1 os (mk_obs 0 0 [] None))) rewritten6 = true
+  /\ is_truth w0' 1 6 [(0, 0); (1, 0)] = false.
+Proof. vm_compute. repeat split. Qed.
+
+Check C25_rewritten_history_refetched : forall w cfg l st nf,
+  s_notify st = NOk nf -> step_genuine w st = true ->
+  mismatch l nf = true \/ nf_session nf <> l_session l ->
+  let o := run_step all_fixes cfg (Some l) st in
+  o_reqs o = [0; nf_snap_ref nf] /\
+  (o_result o = RES_updated ->
+     exists l', o_local o = Some l' /\ l_session l' = nf_session nf /\ l_serial l' = nf_serial nf /\
+                truth w (nf_session nf) (nf_serial nf) = Some (l_content l')) /\
+  (o_result o <> RES_updated -> o_result o < RES_updated /\ o_local o = Some l).
+Check C25_rewritten_model_satisfies_spec : forall cfg wsts,
+  steps_okb2 None wsts (model_obs cfg (map snd wsts)) = true.
